@@ -188,6 +188,21 @@ func (c *Crew) Errorf(format string, args ...interface{}) {
 // When the mid is either (the variable) TimersMachine and the given
 // state is nil, the timers machine's state is reset.
 func (c *Crew) SetMachine(ctx context.Context, mid string, src *crew.SpecSource, state *core.State) error {
+	// Resolve (find and compile) a given spec before anything is
+	// changed or recorded as changed: if that fails, the operation
+	// fails as a whole, the machine (if any) keeps the spec it has,
+	// and so nothing about a new spec may be reported.
+	var (
+		resolvedSrc  *crew.SpecSource
+		resolvedSpec *core.Spec
+	)
+	if src != nil && mid != TimersMachine && mid != CaptainMachine {
+		var err error
+		if resolvedSrc, resolvedSpec, err = ResolveSpecSource(ctx, src); err != nil {
+			return err
+		}
+	}
+
 	m, have := c.Machines[mid]
 
 	if !have {
@@ -256,12 +271,8 @@ func (c *Crew) SetMachine(ctx context.Context, mid string, src *crew.SpecSource,
 		m.Specter = spec
 	default:
 		if src != nil {
-			ss, spec, err := ResolveSpecSource(ctx, src)
-			if err != nil {
-				return err
-			}
-			m.SpecSource = ss
-			m.Specter = spec
+			m.SpecSource = resolvedSrc
+			m.Specter = resolvedSpec
 		}
 	}
 
